@@ -21,7 +21,7 @@ if [ "$REPO_DIR" != "/repo" ]; then
     ALT="$TARGET/alt-harness"
     mkdir -p "$ALT"
     rsync -a --delete --exclude "/target" --exclude "/target-*" "$HARNESS/" "$ALT/"
-    sed -i "s#\"/repo/#\"$REPO_DIR/#g" "$ALT/Cargo.toml"
+    sed -i -e "s#\"/repo/#\"$REPO_DIR/#g" -e "s#\"../vendor/#\"$ROOT/vendor/#g" "$ALT/Cargo.toml"
     HARNESS="$ALT"
 fi
 
